@@ -163,6 +163,19 @@ def run_job(job, rec):
             track(name + ":norm", P.total - 1)
             rec.check(abs(P.total - 1) <= tol_norm, "not-normalised", lambda: f"{name} density integrates to {P.total!r}", ctx)
             rec.check(bool(np.all(P.p >= 0)), "negative-density", "negative density", ctx)
+            # far away and at infinity: the cumulative function has reached 0 / the total probability, singly and in one call with near points
+            far_ = float(10.0 ** rng.uniform(5, 12)) * sd
+            xs_ = np.array([x.mean() - far_, x.mean() + far_, -np.inf, np.inf])
+            cf = [guarded(E.cdf, np.array([v_])) for v_ in xs_]
+            cj = guarded(E.cdf, np.array([x.mean() - far_, float(np.median(x)), x.mean() + far_]))
+            rec.count("far_point_checks")
+            okf = not any(isinstance(v_, Raised) for v_ in cf) and not isinstance(cj, Raised)
+            if okf:
+                cfv = np.array([float(np.ravel(v_)[0]) for v_ in cf])
+                okf = bool(np.all(np.abs(cfv - np.array([0, P.total, 0, P.total])) <= 2e-4)) and abs(float(cj[2]) - P.total) <= 2e-4 and abs(float(cj[0])) <= 2e-4 \
+                    and abs(float(cj[1]) - P.mass(-np.inf, float(np.median(x)))) <= 2e-3
+            rec.check(okf, "cdf-far-points",
+                      lambda: f"{name}: cdf at mean -+ {far_ / sd:.3g} sd and at -+inf = {cf!r}; cdf([far below, median, far above]) = {cj!r}; the density integrates to {P.total!r}", ctx)
 
             # 2. cdf is the integral of the density
             pts = np.sort(rng.uniform(x.min() - 2 * sd, x.max() + 2 * sd, size=6))
